@@ -13,6 +13,10 @@ CHECKS = {
             "DESIGN.md 3/C01",
             "Generated search over data recipes x in-range option vectors x framings x write partitions x position bias with an inverse (round-trip) oracle and panic capture in a checked (debug assertions + overflow checks) and a release build; coverage classes (window move, renormalisation, LZMA2 chunk kinds, restart, preset dictionary) are measured and floored. Finds violations, never proves absence.",
             "Trusts the harness's LZMA2 chunk walker for classification only; dictionaries > 64 MiB and real > 2 GiB inputs are replaced by the position-bias hook."),
+    "C02": ("exploration", "property-based testing: proptest-generated (data, XZ/LZIP container options, write plan) cases, round-trip oracle plus independent format walker",
+            "DESIGN.md 3/C02",
+            "Generated search over data recipes x {check type, block/member size, 0-3 pre-filters, LZMA options, representable and non-representable dictionary sizes} x write partitions; oracle: the crate's own reader returns exactly the input, and the harness's own XZ/LZIP walker agrees on the total size. Checked and release builds. One recorded finding (BCJWriter receiving several writes) is excluded by signature and counted.",
+            "The format walkers are harness code (cross-checked against liblzma in C03). Dictionaries above 64 MiB are not instantiated."),
 }
 
 NOT_YET = {
